@@ -402,6 +402,14 @@ func c04Corpus2() []any {
 	for _, s := range []string{"a=", "a= ", "a[0].b[-0]=", "a= ,b=\u00a0", "e=[1],\u2003z= ", "a[1]=\t,b=1"} {
 		add("ParseJSON", s, vtree{"e": 7.5}, nil, false)
 	}
+	// ParseFile / ParseIntoFile with a callback that returns typed values, in brace lists and at nested indexes
+	for _, fn := range []string{"ParseFile", "ParseIntoFile"} {
+		pf := &c04Parse{Fn: fn, Dest: vtree{}, V2: true, S: "a=p1,b[0][1]={p1,p2},c.d[2]=p3",
+			Reader: map[string]c04RVal{"p1": {Val: vtree{"k": []interface{}{int64(1)}}}, "p2": {Val: int64(7)}, "p3": {Val: nil}}}
+		out = append(out, c04Case{Kind: "parse", Tag: "corpus-parse2", Parse: pf})
+		pe := &c04Parse{Fn: fn, Dest: vtree{}, V2: true, S: "a=p1,b[0]=bad,c=p1", Reader: map[string]c04RVal{"p1": {Val: "v"}, "bad": {Val: "partial", Err: true}}}
+		out = append(out, c04Case{Kind: "parse", Tag: "corpus-parse2", Parse: pe})
+	}
 	// literal parser: io.EOF inside a nested item leaves what was patched in place
 	add("ParseLiteralInto", "a[0][0].", vtree{"a": []interface{}{[]interface{}{int64(5)}}}, nil, false)
 	add("ParseInto", "a[0][0].", vtree{"a": []interface{}{[]interface{}{int64(5)}}}, nil, false)
